@@ -50,7 +50,14 @@ def gen_case(base, prop, i, mode='plain'):
         return short_case(base, i)
     if prop == 'C10':
         w = W.gen_world(rng, 'c10')
-        ops, mix = W.gen_ops(rng, w)
+        sparse = mode == 'plain' and rng.random() < 0.15 and sparsify(rng, w)
+        if sparse:
+            ops, mix = W.gen_ops(rng, w, n=rng.randint(2, 7),
+                                 mix=rng.choice(('balanced', 'delete_heavy')),
+                                 main_bias=0.05, path_bias=(sparse, 0.6))
+            ops.insert(0, {'op': 'check'})
+        else:
+            ops, mix = W.gen_ops(rng, w)
         if mode == 'race':
             ops = add_races(rng, w, ops)
         else:
@@ -152,6 +159,33 @@ def short_case(base, i):
 
 def short_total(w_alpha=16):
     return SHORT_WORLDS * sum(w_alpha ** k for k in range(1, SHORT_LEN + 1))
+
+
+def sparsify(rng, w):
+    """A dirs-only deployment reduced to its minimum: no main policy file,
+    one policy directory holding one file that overrides a registered name
+    which another registered default reaches through rule:. Deleting that
+    file makes the rebuild load nothing at all."""
+    regs = w['defaults']
+    dirs = [x for x in w['conf']['policy_dirs']
+            if x not in ('gone.d', 'late.d')]
+    if len(regs) < 2 or not dirs:
+        return False
+    x = regs[0]['name']
+    if regs[1]['dep'] is None or regs[1]['dep']['name'] != x:
+        regs[1]['ast'] = rng.choice((
+            ['rule', x], ['or', [['false'], ['rule', x]]],
+            ['and', [['rule', x], ['not', ['false']]]]))
+    rel = W.dir_rel(dirs[0])
+    for p in list(w['files']):
+        if not p.endswith('.store') and p != 'etc/svc.conf':
+            del w['files'][p]
+    w['dirlinks'] = {}
+    fn = rng.choice(W.DIR_FILE_POOL[:4])
+    w['files'][rel + '/' + fn] = {
+        'rules': {x: W.gen_rule_for(rng, w, x, depth=0)},
+        'style': W.style_for(rng, fn)}
+    return rel + '/' + fn
 
 
 def add_late_registration(rng, w, ops):
@@ -345,7 +379,7 @@ def execute(case, backend='sim', record=False):
                             judge(step, 'L', p, a, m, 'long-lived!=table')
                             break
                     for n in c11_names:
-                        if n in reg:
+                        if n in reg and reg[n]['dep']:
                             cnt.hit('row:' + '/'.join(
                                 c11_row(ds, n, main)))
                 st = hashlib.sha256(repr(
